@@ -323,9 +323,13 @@ package authz
 //@   requires inv: StoreInv(View, Issued)
 //@   requires presented: Presented == SidOf(req.GetAttributes().GetRequest().GetHttp().GetHeaders(), o.config)
 //@   modifies resp.HttpResponse, resp.Status, resp.GetOkResponse().Headers, ghost View, ghost IdP, ghost Clk, ghost Issued, ghost LastSid, ghost NGen, ghost NDraw
-//@   ensures  served: req.GetAttributes().GetRequest().GetHttp() != nil && !IsLogoutReq(o.config, req.GetAttributes().GetRequest().GetHttp()) && !IsCallbackReq(o.config, req.GetAttributes().GetRequest().GetHttp()) && Presented != "" && HoldsTok(old(View)[StoreFor(o.sessions, o.config).pay][Presented]) && JwtParses(old(View)[StoreFor(o.sessions, o.config).pay][Presented].tok.id) && !TokensExpired(o.config, old(View)[StoreFor(o.sessions, o.config).pay][Presented].tok, ROpEnd) && InsideLimits(old(View)[StoreFor(o.sessions, o.config).pay][Presented], ROpEnd, StoreAbs(StoreFor(o.sessions, o.config)), StoreIdle(StoreFor(o.sessions, o.config))) ==> RespCode(resp) == 0 && IdP == old(IdP) && IsOk(resp)
+//@   ensures  login: LoginHyp(o.config, req.GetAttributes().GetRequest().GetHttp(), Presented, old(View)[StoreFor(o.sessions, o.config).pay][Presented]) ==> RespCode(resp) == 16 && NGen == old(NGen) + 1 && IdP == old(IdP) && LoginDone(o.config, DeniedOf(resp), View[StoreFor(o.sessions, o.config).pay][LastSid], LastSid, RequestedURL(req.GetAttributes().GetRequest().GetHttp()))
+//@   ensures  callback: CallbackHyp(o.config, req.GetAttributes().GetRequest().GetHttp(), Presented, old(View)[StoreFor(o.sessions, o.config).pay][Presented], NextBody, ROpEnd, StoreAbs(StoreFor(o.sessions, o.config)), StoreIdle(StoreFor(o.sessions, o.config))) ==> RespCode(resp) != 0 && IdP.n == old(IdP.n) + 1 && CallbackDone(DeniedOf(resp), old(View)[StoreFor(o.sessions, o.config).pay][Presented], View[StoreFor(o.sessions, o.config).pay][Presented], NextBody)
+//@   ensures  served: ServedHyp(o.config, req.GetAttributes().GetRequest().GetHttp(), Presented, old(View)[StoreFor(o.sessions, o.config).pay][Presented], ROpEnd, StoreAbs(StoreFor(o.sessions, o.config)), StoreIdle(StoreFor(o.sessions, o.config))) ==> RespCode(resp) == 0 && IdP == old(IdP) && IsOk(resp)
 //@   ensures  served_tokens: RespCode(resp) == 0 && IdP == old(IdP) ==> forall i int :: len(old(resp.GetOkResponse().GetHeaders())) <= i && i < len(OkOf(resp).Headers) ==> FwdHdrTok(OkOf(resp).Headers[i], o.config, old(View)[StoreFor(o.sessions, o.config).pay][Presented].tok)
-//@   ensures  login: req.GetAttributes().GetRequest().GetHttp() != nil && !IsLogoutReq(o.config, req.GetAttributes().GetRequest().GetHttp()) && !IsCallbackReq(o.config, req.GetAttributes().GetRequest().GetHttp()) && (Presented == "" || !HoldsTok(old(View)[StoreFor(o.sessions, o.config).pay][Presented])) ==> RespCode(resp) == 16 && NGen == old(NGen) + 1 && LoginRedirect(DeniedOf(resp), o.config, View[StoreFor(o.sessions, o.config).pay][LastSid].auth, LastSid) && HoldsAuth(View[StoreFor(o.sessions, o.config).pay][LastSid]) && View[StoreFor(o.sessions, o.config).pay][LastSid].auth.url == RequestedURL(req.GetAttributes().GetRequest().GetHttp()) && IdP == old(IdP)
+//@   ensures  cover_login: LoginHyp(o.config, req.GetAttributes().GetRequest().GetHttp(), Presented, old(View)[StoreFor(o.sessions, o.config).pay][Presented]) && RespCode(resp) == 16
+//@   ensures  cover_callback: CallbackHyp(o.config, req.GetAttributes().GetRequest().GetHttp(), Presented, old(View)[StoreFor(o.sessions, o.config).pay][Presented], NextBody, ROpEnd, StoreAbs(StoreFor(o.sessions, o.config)), StoreIdle(StoreFor(o.sessions, o.config))) && RespCode(resp) != 0
+//@   ensures  cover_served: ServedHyp(o.config, req.GetAttributes().GetRequest().GetHttp(), Presented, old(View)[StoreFor(o.sessions, o.config).pay][Presented], ROpEnd, StoreAbs(StoreFor(o.sessions, o.config)), StoreIdle(StoreFor(o.sessions, o.config))) && RespCode(resp) == 0
 
 //@ func (*oidcHandler).areRequiredTokensExpired
 //@   variant live
@@ -333,3 +337,32 @@ package authz
 //@   modifies ghost Clk
 //@   ensures  parses: (err == nil) == JwtParses(tokens.IDToken)
 //@   ensures  expired: err == nil ==> result == TokensExpired(o.config, TokOf(tokens), Clk) && Clk >= old(Clk) && Clk <= ROpEnd
+
+//@ func performIDPRequest
+//@   variant live
+//@   requires wf: log != nil && client != nil
+//@   modifies ghost IdP
+//@   ensures  count: IdP.n == old(IdP.n) + 1
+//@   ensures  live: !JNull(NextBody) ==> result1 == 0 && result0 != nil && fresh(result0) && BodyIs(result0, NextBody) && IdP.status == 200 && IdP.body == NextBody
+//@   ensures  fail: result1 != 0 ==> result0 == nil
+//@   ensures  ok_nonnil: result1 == 0 ==> result0 != nil && fresh(result0) && BodyIs(result0, IdP.body) && IdP.status == 200
+//@   ensures  sent: IdP.uri == uri && IdP.hdrs == headers && SentForm(IdP.sent, form)
+
+//@ func (*oidcHandler).isValidIDToken
+//@   variant live
+//@   requires wf: HandlerOK(o) && log != nil
+//@   ensures  code_ok: result0 == (result1 == 0)
+//@   ensures  valid: result0 ==> Validated(o.config, idTokenString)
+//@   ensures  nonce_required: result0 && isNonceRequired ==> NonceIs(idTokenString, expectedNonce)
+//@   ensures  live: JwtParses(idTokenString) && AudOK(idTokenString, o.config.GetClientId()) && NonceIs(idTokenString, expectedNonce) && (forall k iface :: KeysFrom(o.config, k) ==> SigValid(idTokenString, k)) ==> result0
+//@   loop 1 invariant noaud: forall j int :: 0 <= j && j <= rangeindex ==> JwtAud(idTokenString, j) != o.config.GetClientId()
+
+//@ func (*oidcHandler).retrieveTokens
+//@   variant live
+//@   requires wf: HandlerOK(o) && log != nil && resp != nil && o.httpClient != nil
+//@   requires inv: StoreInv(View, Issued)
+//@   modifies resp.HttpResponse, resp.Status, ghost View, ghost IdP, ghost Clk
+//@   ensures  denied: IsDenied(resp) && RespCode(resp) != 0 && DeniedOf(resp) != nil
+//@   ensures  inv: StoreInv(View, Issued)
+//@   ensures  login_completes: req.GetAttributes().GetRequest().GetHttp() != nil && QueryParses(QueryOnly(req.GetAttributes().GetRequest().GetHttp().GetPath())) && QueryLen(QueryOnly(req.GetAttributes().GetRequest().GetHttp().GetPath())) > 0 && UrlQueryGet(QueryOnly(req.GetAttributes().GetRequest().GetHttp().GetPath()), "code") != "" && UrlQueryGet(QueryOnly(req.GetAttributes().GetRequest().GetHttp().GetPath()), "state") != "" && HoldsAuth(old(View)[StoreFor(o.sessions, o.config).pay][sessionID]) && UrlQueryGet(QueryOnly(req.GetAttributes().GetRequest().GetHttp().GetPath()), "state") == old(View)[StoreFor(o.sessions, o.config).pay][sessionID].auth.state && InsideLimits(old(View)[StoreFor(o.sessions, o.config).pay][sessionID], ROpEnd, StoreAbs(StoreFor(o.sessions, o.config)), StoreIdle(StoreFor(o.sessions, o.config))) && CompliantLogin(NextBody, o.config, old(View)[StoreFor(o.sessions, o.config).pay][sessionID].auth.nonce) ==> BackRedirect(DeniedOf(resp), old(View)[StoreFor(o.sessions, o.config).pay][sessionID].auth.url) && HoldsTok(View[StoreFor(o.sessions, o.config).pay][sessionID]) && !HoldsAuth(View[StoreFor(o.sessions, o.config).pay][sessionID]) && LoginTok(View[StoreFor(o.sessions, o.config).pay][sessionID].tok, NextBody) && IdP.n == old(IdP.n) + 1
+//@   ensures  cover_login_completes: req.GetAttributes().GetRequest().GetHttp() != nil && QueryParses(QueryOnly(req.GetAttributes().GetRequest().GetHttp().GetPath())) && QueryLen(QueryOnly(req.GetAttributes().GetRequest().GetHttp().GetPath())) > 0 && UrlQueryGet(QueryOnly(req.GetAttributes().GetRequest().GetHttp().GetPath()), "code") != "" && UrlQueryGet(QueryOnly(req.GetAttributes().GetRequest().GetHttp().GetPath()), "state") != "" && HoldsAuth(old(View)[StoreFor(o.sessions, o.config).pay][sessionID]) && UrlQueryGet(QueryOnly(req.GetAttributes().GetRequest().GetHttp().GetPath()), "state") == old(View)[StoreFor(o.sessions, o.config).pay][sessionID].auth.state && InsideLimits(old(View)[StoreFor(o.sessions, o.config).pay][sessionID], ROpEnd, StoreAbs(StoreFor(o.sessions, o.config)), StoreIdle(StoreFor(o.sessions, o.config))) && CompliantLogin(NextBody, o.config, old(View)[StoreFor(o.sessions, o.config).pay][sessionID].auth.nonce) && BackRedirect(DeniedOf(resp), old(View)[StoreFor(o.sessions, o.config).pay][sessionID].auth.url) && HoldsTok(View[StoreFor(o.sessions, o.config).pay][sessionID]) && !HoldsAuth(View[StoreFor(o.sessions, o.config).pay][sessionID]) && LoginTok(View[StoreFor(o.sessions, o.config).pay][sessionID].tok, NextBody) && IdP.n == old(IdP.n) + 1
